@@ -260,7 +260,7 @@ theorem conv_prefix_free (tbl : List (List Entry)) (src dst : Entry → Bounds) 
     · exact disjoint_contains _ _ u hd (contains_take _ _ _ hc1) hc2
 
 /-- The two directions of a table are inverse to each other on a unit whose index fits into
-the destination box. -/
+the destination box; both lookups hit the same entry with the same index. -/
 theorem conv_inv (tbl tbl' : List (List Entry)) (src dst : Entry → Bounds) (sm dm : Entry → List Nat)
     (hs : SideOK tbl src) (hs' : SideOK tbl' dst)
     (hsm : ∀ e, EntryOK e → sm e = pv (src e) ∧ dm e = pv (dst e) ∧
@@ -268,7 +268,9 @@ theorem conv_inv (tbl tbl' : List (List Entry)) (src dst : Entry → Bounds) (sm
     (hsub : ∀ e ∈ tbl.flatten, e ∈ tbl'.flatten)
     (u c : List Nat) (h : convRune tbl src dst sm dm u = some c)
     (hfit : ∀ e, lookup tbl src u = some e → toIdx (src e) (sm e) u < card (dst e)) :
-    convRune tbl' dst src dm sm c = some u := by
+    convRune tbl' dst src dm sm c = some u ∧
+      ∃ e, lookup tbl src u = some e ∧ lookup tbl' dst c = some e ∧
+        toIdx (dst e) (dm e) c = toIdx (src e) (sm e) u := by
   obtain ⟨hu1, hu2, e, hl, hc⟩ := convRune_some _ _ _ _ _ _ _ h
   obtain ⟨hmem, hcont⟩ := lookup_some _ _ _ _ hl
   obtain ⟨hlen, hok⟩ := hs.shape _ _ hmem
@@ -283,12 +285,30 @@ theorem conv_inv (tbl tbl' : List (List Entry)) (src dst : Entry → Bounds) (sm
   have hlen' := (hs'.shape _ _ hek).1
   have hck : c.length - 1 = k := by omega
   have hl' : lookup tbl' dst c = some e := lookup_unique tbl' dst hs' c e (by rw [hck]; exact hek) f1
+  refine ⟨?_, e, hl, hl', by rw [hsm1, hdm1, f3]⟩
   unfold convRune
   have hcond : ¬ (c.length = 0 ∨ c.length > tbl'.length) := by omega
   rw [if_neg hcond, hl']
   simp only [Option.some.injEq]
   rw [hsm1, hdm1, f3]
   exact fromIdx_toIdx (src e) u hb1 hcont (by omega)
+
+theorem fromIdx_length : ∀ (bs : Bounds) (i : Nat), (fromIdx bs (pv bs) i).length = bs.length
+  | [], _ => by simp [fromIdx]
+  | (lo, hi) :: bs, i => by simp [pv, fromIdx, fromIdx_length bs]
+
+/-- In a well-formed table the produced unit is never empty. -/
+theorem convRune_out_pos (tbl tbl' : List (List Entry)) (src dst : Entry → Bounds) (sm dm : Entry → List Nat)
+    (hs : SideOK tbl src) (hs' : SideOK tbl' dst)
+    (hdm : ∀ e, EntryOK e → dm e = pv (dst e))
+    (hsub : ∀ e ∈ tbl.flatten, e ∈ tbl'.flatten)
+    (u c : List Nat) (h : convRune tbl src dst sm dm u = some c) : 1 ≤ c.length := by
+  obtain ⟨_, _, e, hl, hc⟩ := convRune_some _ _ _ _ _ _ _ h
+  obtain ⟨hmem, _⟩ := lookup_some _ _ _ _ hl
+  obtain ⟨_, hok⟩ := hs.shape _ _ hmem
+  obtain ⟨k, _, hek⟩ := exists_getD_of_mem_flatten tbl' e (hsub e (mem_getD_flatten _ _ _ hmem).1)
+  have hlen' := (hs'.shape _ _ hek).1
+  rw [hc, hdm e hok, fromIdx_length]; omega
 
 /-! ## The search loop and the outer loops -/
 
@@ -737,5 +757,203 @@ theorem convLoop_congr (f g : List Nat → Option (List Nat)) (guard : Bool) (L 
       | short n => rfl
       | exhausted => rfl
       | oob => rfl
+
+/-! ## EncodeReplaceUnknown -/
+
+/-- `EncodeReplaceUnknown` always returns (no panic, no failure), for any table and any bytes. -/
+theorem replLoop_total (f : List Nat → Option (List Nat)) (collapse : Bool) (L : Nat) :
+    ∀ (fuel : Nat) (s : List Nat), s.length < fuel → ∃ b, replLoop f collapse L fuel s = .ok b := by
+  intro fuel
+  induction fuel with
+  | zero => intro s h; omega
+  | succ fuel ih =>
+    intro s hf
+    unfold replLoop
+    by_cases he : s.isEmpty
+    · exact ⟨[], by simp [he]⟩
+    · simp only [he, Bool.false_eq_true, if_false]
+      have hne : s ≠ [] := by simpa using he
+      have hpos : 0 < s.length := List.length_pos_iff.2 hne
+      -- whatever the search answers, the step consumes between 1 and |s| bytes
+      have key : ∀ (n : Nat) (out : List Nat), 1 ≤ n →
+          ∃ b, (if (if n ≥ s.length then s.length else n) = 0 then Res.crash
+            else (replLoop f collapse L fuel (s.drop (if n ≥ s.length then s.length else n))).prepend
+              (if out.isEmpty then [63] else out)) = .ok b := by
+        intro n out hn
+        have h0 : ¬ (if n ≥ s.length then s.length else n) = 0 := by split <;> omega
+        rw [if_neg h0]
+        obtain ⟨b, hb⟩ := ih (s.drop (if n ≥ s.length then s.length else n)) (by
+          simp only [List.length_drop]; split <;> omega)
+        exact ⟨_, by rw [hb]; rfl⟩
+      have hfb : 1 ≤ (if utf8Len s = 0 then 1 else utf8Len s) := by split <;> omega
+      cases hsc : scan f true s s.length 1 L with
+      | found n out =>
+        exact key n out (scan_inv f true _ _ L 1 n out hsc).1
+      | short n =>
+        have hn := (scan_short_inv f true _ _ L 1 n hsc).1
+        cases collapse with
+        | true => exact key n [] hn
+        | false => exact key _ [63] hfb
+      | exhausted => exact key _ [63] hfb
+      | oob => exact absurd hsc (scan_guard_not_oob f s L 1)
+
+theorem replLoop_fuel (f : List Nat → Option (List Nat)) (collapse : Bool) (L : Nat) :
+    ∀ (fuel1 fuel2 : Nat) (s : List Nat), s.length < fuel1 → s.length < fuel2 →
+      replLoop f collapse L fuel1 s = replLoop f collapse L fuel2 s := by
+  intro fuel1
+  induction fuel1 with
+  | zero => intro _ s h; omega
+  | succ fuel1 ih =>
+    intro fuel2 s h1 h2
+    cases fuel2 with
+    | zero => omega
+    | succ fuel2 =>
+      unfold replLoop
+      by_cases he : s.isEmpty
+      · simp [he]
+      · simp only [he, Bool.false_eq_true, if_false]
+        have hne : s ≠ [] := by simpa using he
+        have hpos : 0 < s.length := List.length_pos_iff.2 hne
+        have key : ∀ (n : Nat) (out : List Nat),
+            (if (if n ≥ s.length then s.length else n) = 0 then Res.crash
+              else (replLoop f collapse L fuel1 (s.drop (if n ≥ s.length then s.length else n))).prepend
+                (if out.isEmpty then [63] else out)) =
+            (if (if n ≥ s.length then s.length else n) = 0 then Res.crash
+              else (replLoop f collapse L fuel2 (s.drop (if n ≥ s.length then s.length else n))).prepend
+                (if out.isEmpty then [63] else out)) := by
+          intro n out
+          by_cases h0 : (if n ≥ s.length then s.length else n) = 0
+          · simp [h0]
+          · rw [if_neg h0, if_neg h0, ih fuel2 _ (by simp only [List.length_drop]; omega)
+              (by simp only [List.length_drop]; omega)]
+        cases hsc : scan f true s s.length 1 L with
+        | found n out => exact key n out
+        | short n =>
+          cases collapse with
+          | true => exact key n []
+          | false => exact key _ [63]
+        | exhausted => exact key _ [63]
+        | oob => exact key 0 []
+
+/-- One step of `EncodeReplaceUnknown` over a unit with a non-empty image. -/
+theorem replLoop_step (f : List Nat → Option (List Nat)) (collapse : Bool) (L : Nat)
+    (u c rest : List Nat) (h : IsUnit f L u c) (hc : c ≠ []) (fuel : Nat) :
+    replLoop f collapse L (fuel + 1) (u ++ rest) = (replLoop f collapse L fuel rest).prepend c := by
+  conv => lhs; unfold replLoop
+  have hne : (u ++ rest).isEmpty = false := by
+    have : 0 < u.length := h.2.1
+    cases u with
+    | nil => simp at this
+    | cons a t => simp
+  rw [hne]
+  simp only [Bool.false_eq_true, if_false]
+  have hsc := scan_found f true L u c rest (u ++ rest).length h (by simp)
+  rw [hsc]
+  have hu := h.2.1
+  have hce : c.isEmpty = false := by cases c with
+    | nil => exact absurd rfl hc
+    | cons a t => rfl
+  simp only [hce, Bool.false_eq_true, if_false]
+  by_cases hr : rest.length = 0
+  · have : rest = [] := List.length_eq_zero_iff.1 hr
+    subst this
+    have h0 : ¬ u.length = 0 := by omega
+    simp [h0]
+  · have h1 : ¬ u.length ≥ (u ++ rest).length := by simp; omega
+    have h0 : ¬ u.length = 0 := by omega
+    simp only [h1, if_false, h0]
+    simp
+
+theorem replLoop_units (f : List Nat → Option (List Nat)) (collapse : Bool) (L : Nat) :
+    ∀ (us : List (List Nat × List Nat)), (∀ p ∈ us, IsUnit f L p.1 p.2 ∧ p.2 ≠ []) →
+      ∀ (t : List Nat) (fuel : Nat), ((us.map (·.1)).flatten ++ t).length < fuel →
+      replLoop f collapse L fuel ((us.map (·.1)).flatten ++ t) =
+        (replLoop f collapse L (t.length + 1) t).prepend (us.map (·.2)).flatten := by
+  intro us
+  induction us with
+  | nil =>
+    intro _ t fuel hf
+    simp only [List.map_nil, List.flatten_nil, List.nil_append] at hf ⊢
+    rw [replLoop_fuel f collapse L fuel (t.length + 1) t hf (by omega)]
+    cases replLoop f collapse L (t.length + 1) t <;> simp [Res.prepend]
+  | cons p us ih =>
+    intro hu t fuel hf
+    cases fuel with
+    | zero => omega
+    | succ fuel =>
+      simp only [List.map_cons, List.flatten_cons, List.append_assoc] at hf ⊢
+      rw [replLoop_step f collapse L p.1 p.2 _ (hu p (by simp)).1 (hu p (by simp)).2 fuel]
+      rw [ih (fun q hq => hu q (by simp [hq])) t fuel (by
+        have := (hu p (by simp)).1.2.1
+        simp at hf ⊢; omega)]
+      cases replLoop f collapse L (t.length + 1) t <;> simp [Res.prepend]
+
+/-- The rest of the string at which Go's loop collapses several characters into one `?`:
+shorter than `L`, no convertible prefix, and more than one UTF-8 unit long. -/
+def CollapseAt (f : List Nat → Option (List Nat)) (L : Nat) (s : List Nat) : Prop :=
+  ∃ p t, s = p ++ t ∧ t ≠ [] ∧ t.length < L ∧ (∀ m, 1 ≤ m → m ≤ t.length → f (t.take m) = none) ∧
+    utf8Len t < t.length
+
+theorem replLoop_collapse_eq (f : List Nat → Option (List Nat)) (L : Nat) :
+    ∀ (fuel : Nat) (s : List Nat), ¬ CollapseAt f L s →
+      replLoop f true L fuel s = replLoop f false L fuel s := by
+  intro fuel
+  induction fuel with
+  | zero => intro s _; simp [replLoop]
+  | succ fuel ih =>
+    intro s hno
+    unfold replLoop
+    by_cases he : s.isEmpty
+    · simp [he]
+    · simp only [he, Bool.false_eq_true, if_false]
+      have hne : s ≠ [] := by simpa using he
+      have hsuf : ∀ n, ¬ CollapseAt f L (s.drop n) := by
+        intro n ⟨p, t, hs, ht⟩
+        exact hno ⟨s.take n ++ p, t, by rw [List.append_assoc, ← hs]; simp, ht⟩
+      cases hsc : scan f true s s.length 1 L with
+      | found n out => simp only; rw [ih _ (hsuf _)]
+      | exhausted => simp only; rw [ih _ (hsuf _)]
+      | oob => simp
+      | short n =>
+        obtain ⟨a1, a2, a3, a4⟩ := scan_short_inv f true _ _ L 1 n hsc
+        have hpos : 0 < s.length := List.length_pos_iff.2 hne
+        have hn : n = s.length + 1 := by omega
+        have hu : ¬ utf8Len s < s.length := by
+          intro hlt
+          exact hno ⟨[], s, by simp, hne, by omega, fun m h1 h2 => a4 m h1 (by omega), hlt⟩
+        have h1 : (if n ≥ s.length then s.length else n) = s.length := by
+          rw [if_pos (by omega)]
+        have h2 : (if (if utf8Len s = 0 then 1 else utf8Len s) ≥ s.length then s.length
+            else (if utf8Len s = 0 then 1 else utf8Len s)) = s.length := by
+          rw [if_pos (by split <;> omega)]
+        simp only [if_true, h1, h2]
+        rw [ih _ (hsuf _)]
+        simp
+
+theorem replLoop_congr (f g : List Nat → Option (List Nat)) (collapse : Bool) (L : Nat) :
+    ∀ (fuel : Nat) (s : List Nat), (∀ p u t, s = p ++ u ++ t → f u = g u) →
+      replLoop f collapse L fuel s = replLoop g collapse L fuel s := by
+  intro fuel
+  induction fuel with
+  | zero => intro s _; simp [replLoop]
+  | succ fuel ih =>
+    intro s h
+    unfold replLoop
+    by_cases he : s.isEmpty
+    · simp [he]
+    · simp only [he, Bool.false_eq_true, if_false]
+      rw [scan_congr f g true s s.length (fun n => h [] (s.take n) (s.drop n) (by simp)) L 1]
+      have hsuf : ∀ n, ∀ p u t, s.drop n = p ++ u ++ t → f u = g u := by
+        intro n p u t hd
+        exact h (s.take n ++ p) u t (by
+          rw [List.append_assoc, List.append_assoc, ← List.append_assoc p, ← hd]; simp)
+      cases hsc : scan g true s s.length 1 L with
+      | found n out => simp only; rw [ih _ (hsuf _)]
+      | exhausted => simp only; rw [ih _ (hsuf _)]
+      | oob => simp
+      | short n =>
+        cases collapse with
+        | true => simp only [if_true]; rw [ih _ (hsuf _)]
+        | false => simp only [Bool.false_eq_true, if_false]; rw [ih _ (hsuf _)]
 
 end Gms.RangeMap
